@@ -319,10 +319,23 @@ def ast_digest(fn):
                 if k == "Cast" and not n.get("impl"):
                     t += ":" + str(n.get("t"))
                 inner = n.get("e")
-                while isinstance(inner, dict) and inner.get("k") == "Paren":
+                while isinstance(inner, dict) and (inner.get("k") == "Paren" or (inner.get("k") == "Cast" and inner.get("impl"))):
                     inner = inner.get("e")
-                if k == "Paren" or (k == "Cast" and not n.get("impl") and isinstance(inner, dict) and inner.get("t") == n.get("t")) or (k == "Cast" and n.get("impl")):
-                    t = None      # a cast to the type the operand already has, parentheses, implicit conversions
+                if k == "Paren":
+                    t = None
+                elif k == "Cast" and not n.get("impl") and isinstance(inner, dict) and (inner.get("t") or "").replace("const ", "") == (n.get("t") or "").replace("const ", ""):
+                    t = None      # an explicit cast to the type the operand (below implicit conversions) already has
+                elif k == "Cast" and n.get("impl"):
+                    # implicit conversions count only when they change the width of a non-literal operand (a 64-bit seed passed
+                    # through a 32-bit parameter); conversions of literals and same-width conversions come and go with spelling
+                    op0 = n.get("e")
+                    while isinstance(op0, dict) and op0.get("k") == "Paren":
+                        op0 = op0.get("e")
+                    if isinstance(op0, dict) and op0.get("k") not in ("Int", "Bool", "Float", "Sizeof") and op0.get("sz") and n.get("sz") and op0.get("sz") != n.get("sz") \
+                            and n.get("ck") in ("IntegralCast",) and isinstance(op0.get("v"), type(None)):
+                        t = "ICast:%s>%s" % (op0.get("sz"), n.get("sz"))
+                    else:
+                        t = None
                 if t:
                     toks.append(t)
             for key in sorted(n):
